@@ -181,7 +181,9 @@ func (set *TemplateSet) FromCache(filename string) (*Template, error) {
 
 	// Cache miss
 	if !has {
-		tpl, err := set.FromFile(cleanedFilename)
+		// (loaded by the name we were given, like in debug mode: the cleaned name is
+		// what the first loader makes of it and only serves as the cache key)
+		tpl, err := set.FromFile(filename)
 		if err != nil {
 			return nil, err
 		}
